@@ -60,9 +60,87 @@ theorem C04_broker_swap_negative_rejected (cx : NumCtx) (w : Wallet) (allowNeg :
   unfold swapByFrom swapByTo
   constructor <;> split <;> first | exact ⟨_, rfl⟩ | (rw [if_pos hneg]; exact ⟨_, rfl⟩)
 
+/-! ### the amount handed over as `float` / `int` (fix 83dd7db), `allow_negative_balance` on -/
+
+/-- whatever the class of the amount argument (Decimal, int, float), whatever `allow_negative_balance`: a swap either
+    returns its one action record, or raises with the wallet exactly as it was — there is no third outcome (before the
+    fix there was: `TypeError` after debit and credit, see the witness below) -/
+theorem C04_broker_swap_any_argument_atomic (cx : NumCtx) (w : Wallet) (allowNeg : Bool) (f t : String)
+    (a : PyAmount) (feeRate : Rat) (p : Prices) :
+    ((∃ r, swapByFromArg cx w allowNeg f t a p feeRate = .ok r) ∨ (∃ e, swapByFromArg cx w allowNeg f t a p feeRate = .error (e, w))) ∧
+    ((∃ r, swapByToArg cx w allowNeg f t a p feeRate = .ok r) ∨ (∃ e, swapByToArg cx w allowNeg f t a p feeRate = .error (e, w))) := by
+  unfold swapByFromArg swapByToArg
+  constructor
+  · cases h : swapByFrom cx w allowNeg f t (objectToDecimal a) p feeRate with
+    | ok r => exact Or.inl ⟨r, rfl⟩
+    | error ew =>
+      obtain ⟨e, w'⟩ := ew
+      rw [C04_broker_swap_from_reject_noop cx w w' allowNeg f t _ feeRate p e h]
+      exact Or.inr ⟨e, rfl⟩
+  · cases h : swapByTo cx w allowNeg f t (objectToDecimal a) p feeRate with
+    | ok r => exact Or.inl ⟨r, rfl⟩
+    | error ew =>
+      obtain ⟨e, w'⟩ := ew
+      rw [C04_broker_swap_to_reject_noop cx w w' allowNeg f t _ feeRate p e h]
+      exact Or.inr ⟨e, rfl⟩
+
+/-- with `allow_negative_balance` the wallet never refuses: the rejection causes left are the ones checked before the
+    first mutation (fee range, negative amount, missing price, zero price) -/
+theorem C04_broker_swap_allow_negative_causes (cx : NumCtx) (w w' : Wallet) (f t : String) (amount feeRate : Rat) (p : Prices)
+    (e : BrokerErr) (h : swapByFrom cx w true f t amount p feeRate = .error (e, w') ∨ swapByTo cx w true f t amount p feeRate = .error (e, w')) :
+    e ≠ .insufficient ∧ e ≠ .unknownToken := by
+  have hs : ∀ b a, ∃ b', assetSub cx b a true = some b' := by
+    intro b a
+    by_cases h0 : (if b = 0 then a else b) = 0
+    · exact ⟨b, by simp [assetSub, h0]⟩
+    · exact ⟨cx.sub b a, by simp [assetSub, h0]⟩
+  have hd : ∀ tok a, ∃ w1, Wallet.debit cx w tok a true = .ok w1 := by
+    intro tok a
+    unfold Wallet.debit
+    cases AList.get? w tok with
+    | none => exact ⟨_, rfl⟩
+    | some b =>
+      obtain ⟨b', hb'⟩ := hs b a
+      simp only [hb']
+      exact ⟨_, rfl⟩
+  have hne : ∀ tok a e', Wallet.debit cx w tok a true ≠ .error e' := by
+    intro tok a e' he
+    obtain ⟨w1, h1⟩ := hd tok a
+    rw [h1] at he
+    exact absurd he (by simp)
+  rcases h with h | h
+  · unfold swapByFrom at h
+    repeat' (first | split at h | (simp only [] at h; split at h))
+    all_goals first
+      | (rename_i hh; exact absurd hh (hne _ _ _))
+      | (injection h with h; injection h with h _; subst h; exact ⟨by decide, by decide⟩)
+      | (exact absurd h (by simp))
+  · unfold swapByTo at h
+    repeat' (first | split at h | (simp only [] at h; split at h))
+    all_goals first
+      | (rename_i hh; exact absurd hh (hne _ _ _))
+      | (injection h with h; injection h with h _; subst h; exact ⟨by decide, by decide⟩)
+      | (exact absurd h (by simp))
+
+/-- the defect repaired by 83dd7db, on the reviewer's input: `swap_by_from(USDC, ETH, 100.5 : float)`, wallet
+    1000 USDC / 1 ETH, a record callback attached: the unformatted body raised `TypeError` and left 899.5 USDC /
+    1.05009925 ETH behind; the formatted call returns the record. -/
+theorem C04_broker_swap_float_defect_before_fix :
+    (match swapByFromUnformatted NumCtx.py [("USDC", 1000), ("ETH", 1)] false "USDC" "ETH" (.float (201/2)) (201/2)
+              [("USDC", 1), ("ETH", 2000)] (3/1000) with
+      | .error ew => some ew | .ok _ => none) = some ("TypeError", [("USDC", 1799/2), ("ETH", 4200397/4000000)]) ∧
+    (swapByFromArg NumCtx.py [("USDC", 1000), ("ETH", 1)] false "USDC" "ETH" (.float (201/2))
+              [("USDC", 1), ("ETH", 2000)] (3/1000)).toOption.map (·.wallet) = some [("USDC", 1799/2), ("ETH", 4200397/4000000)] := by
+  decide +kernel
+
 /-- every rejection cause of a swap is reachable (the theorem above is not vacuous) -/
 example : (swapByFrom NumCtx.py [("USDC", 10)] false "USDC" "ETH" 50 [("USDC", 1), ("ETH", 2000)] (3 / 1000)).toOption.isNone := by decide +kernel
 example : (swapByFrom NumCtx.py [("USDC", 10)] false "USDC" "ETH" 5 [("USDC", 1)] (3 / 1000)).toOption.isNone := by decide +kernel
 example : (swapByFrom NumCtx.py [("USDC", 10)] false "USDC" "ETH" 5 [("USDC", 1), ("ETH", 2000)] 1).toOption.isNone := by decide +kernel
+
+-- float / int arguments and allow_negative_balance: accepted and rejected cases exist
+example : (swapByFromArg NumCtx.py [("USDC", 10)] true "USDC" "ETH" (.float 50) [("USDC", 1), ("ETH", 2000)] (3 / 1000)).toOption.isSome := by decide +kernel
+example : (swapByFromArg NumCtx.py [("USDC", 10)] false "USDC" "ETH" (.float 50) [("USDC", 1), ("ETH", 2000)] (3 / 1000)).toOption.isNone := by decide +kernel
+example : (swapByToArg NumCtx.py [("USDC", 10)] true "USDC" "ETH" (.int 1) [("USDC", 1)] (3 / 1000)).toOption.isNone := by decide +kernel
 
 end Demeter
